@@ -46,6 +46,9 @@ type Sim struct {
 	// live in this run: 0 none, 1 a pseudo-random quarter of the sites (AutoSalt), 2 all.
 	AutoMode int
 	AutoSalt uint64
+	// AutoStall > 0 lets one auto park in sixteen last up to that much virtual time (scenarios
+	// whose oracles do not time go-header opt in).
+	AutoStall time.Duration
 	held     map[uint64]int // goroutine -> sync.Mutex/RWMutex locks it holds (instrumented code only)
 	autoHits int
 
@@ -189,11 +192,23 @@ func (s *Sim) AutoYield(site string) {
 	if !holds {
 		s.autoHits++
 	}
+	n := s.autoHits
 	s.mu.Unlock()
 	if holds {
 		return
 	}
-	s.park("auto:"+site, "", time.Time{})
+	var notBefore time.Time
+	if s.AutoStall > 0 {
+		// a goroutine that is descheduled for a while at this point (one park in sixteen): virtual
+		// time only passes when nobody can run, so without this nothing that takes time
+		// (a network round trip, a timer) can ever overtake a goroutine parked here
+		h := fnv.New64a()
+		fmt.Fprintf(h, "%s/%d/%d", site, s.AutoSalt, n)
+		if v := h.Sum64(); v%16 == 0 {
+			notBefore = time.Now().Add(time.Millisecond + time.Duration((v>>8)%uint64(s.AutoStall)))
+		}
+	}
+	s.park("auto:"+site, "", notBefore)
 }
 
 // AutoHits is how many mechanically inserted park points were taken in this run.
